@@ -90,7 +90,7 @@ def check(ctx) -> None:
                 if kind == "unknown":
                     raise AnalysisError(f"TAGKEY: cannot classify the key of {e.name} at {e.loc()}: {show(key)}")
                 ok = (kind == "full") or not suffixed
-                ctx.ob("TAGKEY", f"{e.func.qualname}|{e.name}|{util.text(e.node, 60)}", e.loc(), ok,
+                ctx.ob("TAGKEY", f"{e.func.qualname}|{e.name}|{util.akey(e.node, e.func, 60)}", e.loc(), ok,
                        "result looked up with a tag taken from the results' own tag list (full-tag domain)" if ok else
                        f"{e.func.name} looks results up with the base-tag literal {show(key)}; Observable.tag is "
                        f"'<base>_<suffix>' when a tag_suffix is given, so a suffixed per-atom observable is admitted "
